@@ -79,7 +79,7 @@ Definition res_matches (univ : list var) (r : rstate) (x : xres) : bool :=
   | RRun s e, XRun vals xe => list_eqb (opt_eqb val_eqb) (map s univ) vals && list_eqb event_eqb e xe
   | RStop s e w, XStop vals xe xw =>
       list_eqb (opt_eqb val_eqb) (map s univ) vals && list_eqb event_eqb e xe && stop_eqb w xw
-  | RCrash _, XCrashed => true
+  | RCrash _ _, XCrashed => true
   | _, _ => false
   end.
 
